@@ -96,6 +96,17 @@ def variants(kinds):
                 nested = any(isinstance(n, (ast.FunctionDef, ast.AsyncFunctionDef)) for n in ast.walk(fn) if n is not fn)
                 if ifs and not nested:
                     out.append(("G", f"{rel}:{q}: if/else branches inverted ({len(ifs)})", rel, (q, None)))
+            if "J" in kinds:
+                dcs = [n for n in ast.walk(fn) if isinstance(n, ast.Call) and isinstance(n.func, ast.Name) and n.func.id == "dict" and not n.args
+                       and n.keywords and all(k.arg for k in n.keywords)]
+                if dcs:
+                    out.append(("J", f"{rel}:{q}: dict(k=v) calls as literals ({len(dcs)})", rel, (q, None)))
+            if "L" in kinds:
+                def _term(blk):
+                    return bool(blk) and isinstance(blk[-1], (ast.Return, ast.Raise))
+                els = [n for n in ast.walk(fn) if isinstance(n, ast.If) and n.orelse and _term(n.body)]
+                if els:
+                    out.append(("L", f"{rel}:{q}: else after return/raise removed ({len(els)})", rel, (q, None)))
             if "H" in kinds:
                 cmps = [n for n in ast.walk(fn) if isinstance(n, ast.Compare) and len(n.ops) == 1 and isinstance(n.ops[0], (ast.Eq, ast.NotEq))]
                 if cmps:
@@ -140,6 +151,31 @@ def make_variant(sc, kind, rel, arg):
                     if isinstance(n, ast.If) and n.orelse and not (len(n.orelse) == 1 and isinstance(n.orelse[0], ast.If)):
                         n.test = ast.UnaryOp(op=ast.Not(), operand=n.test)
                         n.body, n.orelse = n.orelse, n.body
+            elif kind == "J":
+                class DJ(ast.NodeTransformer):
+                    def visit_Call(self, n):
+                        self.generic_visit(n)
+                        if isinstance(n.func, ast.Name) and n.func.id == "dict" and not n.args and n.keywords and all(k.arg for k in n.keywords):
+                            return ast.copy_location(ast.Dict(keys=[ast.Constant(k.arg) for k in n.keywords], values=[k.value for k in n.keywords]), n)
+                        return n
+                DJ().visit(fn)
+            elif kind == "L":
+                def fix(block):
+                    i = 0
+                    while i < len(block):
+                        st = block[i]
+                        for f_ in ("body", "orelse", "finalbody"):
+                            b_ = getattr(st, f_, None)
+                            if isinstance(b_, list) and b_ and isinstance(b_[0], ast.stmt):
+                                fix(b_)
+                        for h in getattr(st, "handlers", []) or []:
+                            fix(h.body)
+                        if isinstance(st, ast.If) and st.orelse and st.body and isinstance(st.body[-1], (ast.Return, ast.Raise)):
+                            tail = st.orelse
+                            st.orelse = []
+                            block[i + 1:i + 1] = tail
+                        i += 1
+                fix(fn.body)
             elif kind == "H":
                 for n in ast.walk(fn):
                     if isinstance(n, ast.Compare) and len(n.ops) == 1 and isinstance(n.ops[0], (ast.Eq, ast.NotEq)):
@@ -208,7 +244,7 @@ def main():
     args = sys.argv[1:]
     props = ALL
     limit = None
-    kinds = [a for a in args if a in ("A", "B", "C", "D", "E", "G", "H", "I")] or ["A", "B", "C", "D", "E", "G", "H", "I"]
+    kinds = [a for a in args if a in ("A", "B", "C", "D", "E", "G", "H", "I", "J", "L")] or ["A", "B", "C", "D", "E", "G", "H", "I", "J", "L"]
     for i, a in enumerate(args):
         if a == "--props":
             props = args[i + 1].split(",")
